@@ -219,6 +219,9 @@ def inverse_weights_guarded(ck, prog):
             clo = term[2][1]
             cb = prog.get(clo[1][len("closure:"):]) if clo[0] == "agg" and clo[1].startswith("closure:") else None
             c = guards._cond(None, Resolver(cb).local(0)) if cb else None
+            if c:
+                from sa.prov import subst_upvars
+                c = (subst_upvars(prog, cb, c[0]), c[1], subst_upvars(prog, cb, c[2]))
             if c and whole and ((zero(c[0]) or zero(c[2])) and c[1] in ("==", "!=")):
                 # edge on which "no element is zero" holds
                 is_any = term[1].endswith("Iterator::any")
